@@ -1342,3 +1342,117 @@ def _blockdiag(mats):
         r += M.shape[0]
         c += M.shape[1]
     return W
+
+
+# ----------------------------------------------------------------------------- default precision (no x64) stream, round 6
+
+SINGLE = {"float64": "float32", "complex128": "complex64"}
+
+
+def to_single(t):
+    """the same tree / scalar with every 64-bit dtype replaced by its 32-bit counterpart"""
+    if isinstance(t, dict):
+        return {k: (SINGLE.get(v, v) if k in ("dt", "ddt", "indt", "gdt", "vdt") and isinstance(v, str) else to_single(v)) for k, v in t.items()}
+    if isinstance(t, list):
+        return [to_single(v) for v in t]
+    return t
+
+
+def _real_only(e):
+    for k in ("dt", "ddt", "indt", "gdt"):
+        if isinstance(e.get(k), str) and G.is_cplx(e[k]):
+            return False
+    c = e.get("c")
+    if isinstance(c, dict) and (c["kind"] == "complex" or (c["kind"] in ("np", "jx") and G.is_cplx(c["dt"]))):
+        return False
+    return all(_real_only(e[k]) for k in ("a", "b") if isinstance(e.get(k), dict))
+
+
+def nox64_stream(ctx, env, table, n_trees, n_stacks, mixed_dtype_findings=True):
+    """DEFAULT-PRECISION stream: a sample of the class-pair table, random trees and random stacks rebuilt at float32 /
+    complex64 (and, for real trees, with the dtype arguments omitted) in a subprocess WITHOUT jax_enable_x64; accept / reject
+    and the declared shapes / dtypes must agree with the x64 run of the same 32-bit tree; the worker evaluates the property itself in default precision."""
+    import json
+    import subprocess
+    import sys
+
+    import opalg_trees as T
+
+    rng = ctx.rng
+    items = []
+    idx = rng.permutation(len(table))[: n_trees]
+    for i in sorted(int(v) for v in idx):
+        name, e = table[i]
+        items.append({"name": name, "e": e})
+    for k in range(n_trees // 4):
+        dt_of = (lambda: "float64") if rng.random() < 0.5 else (lambda: "complex128")
+        insh = T.shape(rng)
+        outsh = insh if rng.random() < 0.5 else T.shape(rng)
+        items.append({"name": f"tree{k}", "e": T.tree(rng, int(rng.integers(2, 5)), insh, outsh, dt_of, p_bad=0.0, allow_nonlin=False)})
+    for it in list(items):
+        if _real_only(it["e"]) and rng.random() < 0.5:
+            items.append({"name": it["name"] + " [default dtypes]", "e": it["e"], "default": True})
+    for k in range(n_stacks):
+        c = gen_stack_case(rng, False)
+        items.append({"name": f"stack{k}", "stack": c})
+    # expectation: the x64 process on the SAME 32-bit objects - accept / reject and declared shapes / dtypes must not depend on x64
+    payload = []
+    for it in items:
+        if "e" in it:
+            ref = env.observe(to_single(it["e"]), [], None)
+            payload.append({"e": to_single(it["e"]), "default": it.get("default", False)})
+        else:
+            ref = observe_stack(env, to_single(it["stack"]), [], [])
+            payload.append({"stack": to_single(it["stack"])})
+        it["ref"] = ("err", ref[1]) if ref[0] == "err" else ("ok", {k: ref[1][k] for k in ("in_shape", "out_shape", "in_dtype", "out_dtype", "matrix_shape")})
+    p = subprocess.run([sys.executable, str(common.VERIF / "harness" / "opalg_nox64_worker.py")],
+                       input=json.dumps({"repo": str(common.REPO), "items": payload}), capture_output=True, text=True, timeout=1500)
+    if p.returncode != 0:
+        raise common.Infra("default-precision worker failed: " + p.stderr[-600:])
+    res = json.loads(p.stdout.strip().splitlines()[-1])["results"]
+    bad = 0
+    for it, r in zip(items, res):
+        key = ("nox64", it["name"], bool(it.get("default")))
+        ctx.case({"default-precision": it["name"]}, key, sample_every=200)
+        ctx.count("default-precision:" + ("stack" if "stack" in it else ("tree:default-dtypes" if it.get("default") else "tree")) + (":rejected" if "err" in r else ""))
+        fail = None
+        ref = it["ref"]
+        if "err" in r:
+            if ref[0] != "err" or ref[1] != r["err"]:
+                fail = {"constructed_with_x64": ref[0] if ref[0] == "ok" else "rejected:" + ref[1], "default_precision": "rejected:" + r["err"], "raised": r.get("raised")}
+        elif ref[0] == "err":
+            fail = {"constructed_with_x64": "rejected:" + ref[1], "default_precision": "accepted", "declared": r["info"]}
+        else:
+            want = dict(ref[1])
+            want["in_dtype"], want["out_dtype"] = SINGLE.get(want["in_dtype"], want["in_dtype"]), SINGLE.get(want["out_dtype"], want["out_dtype"])
+            diff = {k: [r["info"][k], want[k]] for k in want if r["info"][k] != want[k]}
+            if diff:
+                fail = {"declared_in_default_precision_vs_x64(32-bit image)": diff}
+            elif r["fails"]:
+                fail = r["fails"]
+        if fail:
+            fail = dict(fail)
+            fail["mode"] = "default precision (jax_enable_x64 off), 32-bit data" + (", dtype arguments omitted" if it.get("default") else "")
+            case = {"name": it["name"], "default": bool(it.get("default"))}
+            case.update({"e": to_single(it["e"])} if "e" in it else {"stack": to_single(it["stack"])})
+            # operands of different dtypes below a generic sum / composition: the recorded findings (C12), classified here
+            es = [it["e"]] if "e" in it else [{"t": "add", "a": e, "b": it["stack"]["es"][0]} for e in it["stack"]["es"]]
+            mixed = not all(G.dtype_uniform(e) for e in es)
+            keys = set(fail) - {"mode"}
+            known = None
+            if mixed and keys == {"dtype"}:
+                known = "mixed-operand-dtypes"
+            elif mixed and keys <= {"evaluation_raised", "adjoint_raised"} and "Dtype error" in json.dumps(fail, default=str):
+                known = "adj-dtype-check-mixed"
+            if known is not None and not mixed_dtype_findings:
+                # recorded under C12 (declared vs returned dtype of operands mixing dtypes); C05 only counts them
+                ctx.count("default-precision:mixed-dtypes (recorded under C12)")
+                continue
+            ctx.disagree("opalg.default-precision", json.loads(json.dumps(case)), json.loads(json.dumps(fail, default=str)),
+                         "as with x64: same accept/reject, declared = returned (32-bit), values = construction on matrices",
+                         oracle=lambda c, fail=fail: json.loads(json.dumps(fail, default=str)), known_id=known)
+            if known is not None:
+                continue
+            bad += 1
+            if bad >= 5:
+                break
